@@ -96,12 +96,34 @@ def encodeThreeOpds (opt : Nat) (s : Instr) (r m v : Nat) : R Instr :=
   | .error e => .error e
   | .ok s => .ok (setRex s (s.opd m) (s.opd r))
 
-/-- O encoding: `rd_offset = reg & 7`, or-ed with the mod bits for a memory operand -/
-def setRdOffsetO (s : Instr) (m : Nat) : Instr :=
-  let rd := (s.opd m).reg &&& c_VALUE_MASK
-  { s with rdOffset := if s.memDisp then rd ||| s.modDisp else rd }
-
 def noRegister : Operand := { reg := c_reg_none, index := c_reg_none }
+
+/-- O encoding, far call/jmp through memory: REX.W unless word/dword, and the next /digit -/
+def farAdjust (s : Instr) (regR : Nat) : Instr × Nat :=
+  if s.kw.isFar && (s.memDisp || s.memValue) then
+    let s := if !s.kw.isWord && !s.kw.isDword
+             then { s with hex := { s.hex with rex := s.hex.rex ||| c_rex_w } } else s
+    (s, (regR + 1) % 2 ^ 32)
+  else (s, regR)
+
+/-- O encoding, register operand: REX.B for r8..r15 -/
+def rexBExt (s : Instr) (m : Nat) : Instr :=
+  if ((s.opd m).reg &&& c_MODE_MASK) == c_ext64
+  then { s with hex := { s.hex with rex := s.hex.rex ||| (c_rex_ + c_rex_b) } } else s
+
+/-- O encoding, memory operand, after get_reg: mod and r/m from `hex.reg`, REX.B / REX.X from the
+    base and index registers -/
+def setRdOffsetMem (s : Instr) (m : Nat) : Instr :=
+  let s := { s with rdOffset := s.hex.reg &&& (c_MOD24 ||| c_VALUE_MASK) }
+  let s := if (s.opd m).reg != c_NO_BASE && band (s.opd m).reg c_REG_RB
+           then { s with hex := { s.hex with rex := s.hex.rex ||| (c_rex_ + c_rex_b) } } else s
+  if (s.opd m).index != c_reg_none && band (s.opd m).index c_REG_RB
+  then { s with hex := { s.hex with rex := s.hex.rex ||| (c_rex_ + c_rex_x) } } else s
+
+/-- O encoding, register operand, after get_reg -/
+def setRdOffsetReg (s : Instr) (m : Nat) : Instr :=
+  let s := rexBExt s m
+  { s with rdOffset := (s.opd m).reg &&& c_VALUE_MASK }
 
 /-- `encode_special_opd(instrc, FIRST_OPERAND, SECOND_OPERAND)`. -/
 def encodeSpecialOpd (opt : Nat) (s : Instr) (m i : Nat) : R Instr :=
@@ -113,18 +135,10 @@ def encodeSpecialOpd (opt : Nat) (s : Instr) (m i : Nat) : R Instr :=
     | .ok s => .ok (setRex s (s.opd m) noRegister)
   else if row.enc == c_O then
     let (s, _) := encodeMem opt s m
-    let regR := row.singleReg
-    let (s, regR) :=
-      if s.kw.isFar && (s.memDisp || s.memValue) then
-        let s := if !s.kw.isWord && !s.kw.isDword
-                 then { s with hex := { s.hex with rex := s.hex.rex ||| c_rex_w } } else s
-        (s, (regR + 1) % 2 ^ 32)
-      else (s, regR)
-    let s := if ((s.opd m).reg &&& c_MODE_MASK) == c_ext64
-             then { s with hex := { s.hex with rex := s.hex.rex ||| (c_rex_ + c_rex_b) } } else s
-    match getReg opt s m regR with
+    let sr := farAdjust s row.singleReg
+    match getReg opt sr.1 m sr.2 with
     | .error e => .error e
-    | .ok s => .ok (setRdOffsetO s m)
+    | .ok s => .ok (if s.memDisp then setRdOffsetMem s m else setRdOffsetReg s m)
   else if row.enc == c_I then .ok (setRex s (s.opd m) (s.opd i))
   else .ok s
 
@@ -166,23 +180,27 @@ def nasmRegisterSizeOptimize (s : Instr) : Instr :=
 def effNasm (opt : Nat) (s : Instr) : Bool :=
   if band opt c_SMART_MOV_IMM then s.narrowOk else band opt c_NASM_MOV_IMM
 
+/-- `encode_imm_data_transfer`, imm ≤ 0xffffffff: narrow the register (NASM) or take the next row -/
+def dtSelect (nasm : Bool) (s : Instr) : Instr :=
+  if s.cons ≤ c_MAX_UNSIGNED_32BIT then
+    if nasm && !s.memDisp then nasmRegisterSizeOptimize s
+    else if (s.cons < c_NEG32BIT_CHECK && (s.opd0.reg &&& c_MODE_MASK) ≥ c_reg64) || s.memDisp
+    then { s with key := s.key + 1 }
+    else s
+  else s
+
+/-- `encode_imm_data_transfer`: opcode offset 8 for the `b8+rd` form -/
+def dtOpOffset (nasm : Bool) (s : Instr) : Instr :=
+  if (s.opd0.reg &&& c_MODE_MASK) > c_noext8 && ((nasm && !s.memDisp) || (rowAt s.key).enc == c_I)
+  then { s with opOffset := c_BIT_8 } else s
+
 /-- `encode_imm_data_transfer`. -/
 def encodeImmDataTransfer (opt : Nat) (s : Instr) : Instr :=
   let s := { s with rdOffset := s.opd0.reg &&& c_VALUE_MASK }
   if inR s.cons (c_NEG32BIT + 1) c_NEG64BIT && band s.cons c_NEG32BIT_CHECK &&
      (band s.opd0.reg c_reg64 || s.memDisp) then
     { s with key := s.key + 1, cons := s.cons &&& c_MAX_UNSIGNED_32BIT, reducedImm := true }
-  else
-    let s :=
-      if s.cons ≤ c_MAX_UNSIGNED_32BIT then
-        if effNasm opt s && !s.memDisp then nasmRegisterSizeOptimize s
-        else if (s.cons < c_NEG32BIT_CHECK && (s.opd0.reg &&& c_MODE_MASK) ≥ c_reg64) || s.memDisp
-        then { s with key := s.key + 1 }
-        else s
-      else s
-    if (s.opd0.reg &&& c_MODE_MASK) > c_noext8 &&
-       ((effNasm opt s && !s.memDisp) || (rowAt s.key).enc == c_I)
-    then { s with opOffset := c_BIT_8 } else s
+  else dtOpOffset (effNasm opt s) (dtSelect (effNasm opt s) s)
 
 /-- `encode_imm_non_data_transfer`. -/
 def encodeImmNonDataTransfer (s : Instr) : Instr :=
@@ -208,33 +226,41 @@ def encodeImmOperation (s : Instr) : Instr :=
       !inR s.cons c_NEG80BIT (c_NEG64BIT - 1))
   then { s with key := s.key + 1 } else s
 
+/-- `encode_imm`, first step: the accumulator short form of an OPERATION row -/
+def immSelectAcc (s : Instr) : Instr :=
+  if typeIs s.key c_OPERATION then encodeImmOperation s else s
+
+/-- `encode_imm`, second step: per instruction class -/
+def immByClass (opt : Nat) (s : Instr) : Instr :=
+  let mode := s.opd0.reg &&& c_MODE_MASK
+  if mode == c_mmx64 then { s with reducedImm := true }
+  else if s.opOffset == 1 && typeIs s.key c_PAD_ALWAYS then
+    let s := if inR s.cons (c_NEG32BIT + 1) c_NEG64BIT
+             then { s with cons := s.cons &&& c_MAX_UNSIGNED_32BIT, reducedImm := true } else s
+    if (s.opd0.reg &&& c_REG_MASK) == c_al then { s with key := s.key + 1 } else s
+  else if s.opOffset == 1 && !typeIs s.key c_DATA_TRANSFER then encodeImmNonDataTransfer s
+  else if typeIs s.key c_DATA_TRANSFER then encodeImmDataTransfer opt s
+  else s
+
+/-- `encode_imm`, last step: truncation for 16-bit and 8-bit destinations
+    (`opd[0].reg` may have been narrowed by nasm_register_size_optimize: it is re-read) -/
+def immTruncate (s : Instr) : Instr :=
+  let mode := s.opd0.reg &&& c_MODE_MASK
+  let s :=
+    if mode < c_reg32 then
+      let s := { s with cons := s.cons &&& c_MAX_UNSIGNED_16BIT, reducedImm := true }
+      if (mode == c_reg16 || mode == c_ext16) && s.cons ≤ c_MAX_UNSIGNED_8BIT
+      then { s with reducedImm := false } else s
+    else s
+  if mode < c_reg16 then { s with cons := s.cons &&& c_MAX_UNSIGNED_8BIT, reducedImm := true }
+  else s
+
 /-- `encode_imm`. -/
 def encodeImm (opt : Nat) (s : Instr) : Instr :=
   if !s.imm then s
   else if (typeIs s.key c_SHIFT && s.cons == 1) || typeIs s.key c_CONTROL_FLOW then
     { s with imm := false }
   else if typeIs s.key c_SHIFT && s.cons != 1 then { s with key := s.key + 1 }
-  else
-    let s := if typeIs s.key c_OPERATION then encodeImmOperation s else s
-    let mode := s.opd0.reg &&& c_MODE_MASK
-    let s :=
-      if mode == c_mmx64 then { s with reducedImm := true }
-      else if s.opOffset == 1 && typeIs s.key c_PAD_ALWAYS then
-        let s := if inR s.cons (c_NEG32BIT + 1) c_NEG64BIT
-                 then { s with cons := s.cons &&& c_MAX_UNSIGNED_32BIT, reducedImm := true } else s
-        if (s.opd0.reg &&& c_REG_MASK) == c_al then { s with key := s.key + 1 } else s
-      else if s.opOffset == 1 && !typeIs s.key c_DATA_TRANSFER then encodeImmNonDataTransfer s
-      else if typeIs s.key c_DATA_TRANSFER then encodeImmDataTransfer opt s
-      else s
-    -- `opd[0].reg` may have been narrowed by nasm_register_size_optimize: re-read it
-    let mode := s.opd0.reg &&& c_MODE_MASK
-    let s :=
-      if mode < c_reg32 then
-        let s := { s with cons := s.cons &&& c_MAX_UNSIGNED_16BIT, reducedImm := true }
-        if (mode == c_reg16 || mode == c_ext16) && s.cons ≤ c_MAX_UNSIGNED_8BIT
-        then { s with reducedImm := false } else s
-      else s
-    if mode < c_reg16 then { s with cons := s.cons &&& c_MAX_UNSIGNED_8BIT, reducedImm := true }
-    else s
+  else immTruncate (immByClass opt (immSelectAcc s))
 
 end AL.Impl
